@@ -186,7 +186,7 @@ auto ebpps_sketch<T,A>::get_result() const -> result_type {
 
 template<typename T, typename A>
 void ebpps_sketch<T, A>::merge(ebpps_sketch<T, A>&& sk) {
-  if (sk.get_cumulative_weight() == 0.0) return;
+  if (sk.get_cumulative_weight() == 0.0) { reduce_k(sk.k_); return; }
   else if (sk.get_cumulative_weight() > get_cumulative_weight()) {
     // need to swap this with sk to merge smaller into larger
     std::swap(*this, sk);
@@ -197,7 +197,7 @@ void ebpps_sketch<T, A>::merge(ebpps_sketch<T, A>&& sk) {
 
 template<typename T, typename A>
 void ebpps_sketch<T, A>::merge(const ebpps_sketch<T, A>& sk) {
-  if (sk.get_cumulative_weight() == 0.0) return;
+  if (sk.get_cumulative_weight() == 0.0) { reduce_k(sk.k_); return; }
   else if (sk.get_cumulative_weight() > get_cumulative_weight()) {
     // need to swap this with sk to merge, so make a copy, swap,
     // and use that to merge
@@ -219,7 +219,7 @@ void ebpps_sketch<T, A>::internal_merge(O&& sk) {
 
   const double final_cum_wt = cumulative_wt_ + sk.cumulative_wt_;
   const double new_wt_max = std::max(wt_max_, sk.wt_max_);
-  k_ = std::min(k_, sk.k_);
+  reduce_k(sk.k_);
   const uint64_t new_n = n_ + sk.n_;
 
   // Insert sk's items with the cumulative weight
@@ -271,6 +271,18 @@ void ebpps_sketch<T, A>::internal_merge(O&& sk) {
   cumulative_wt_ = final_cum_wt;
   wt_max_ = new_wt_max;
   n_ = new_n;
+}
+
+template<typename T, typename A>
+void ebpps_sketch<T, A>::reduce_k(uint32_t k) {
+  if (k >= k_) return;
+  k_ = k;
+  if (cumulative_wt_ > 0.0) {
+    // bring the current sample down to the new bound
+    const double new_rho = std::min(rho_, k_ / cumulative_wt_);
+    sample_.downsample(new_rho / rho_);
+    rho_ = new_rho;
+  }
 }
 
 /*
